@@ -176,38 +176,191 @@ Proof.
   - pose proof (modes_ok_length _ _ HN Hs). destruct (Z.leb_spec (zlen (np_sort d)) 1); [reflexivity|lia].
 Qed.
 
-Lemma ttv_some_decides s vlens d :
-  guard_tensor_ttv s vlens (Some d) None = decide (pre_tensor_ttv s vlens (Some d) None).
+Lemma modes_ok_sort N d : modes_ok N (np_sort d) = modes_ok N d.
+Proof. apply modes_ok_perm, np_sort_perm. Qed.
+
+Section TtvWith.
+  Variable s : vec.
+  Variable tail : vec -> res unit.
+  Hypothesis tail_ok : forall sd, modes_ok (ndim s) sd = true -> tail sd = Ok tt.
+
+  Lemma ttv_with_some_decides vlens d :
+    guard_ttv_with tail s vlens (Some d) None = decide (pre_tensor_ttv s vlens (Some d) None).
+  Proof.
+    pose proof (ndim_nonneg s) as HN.
+    unfold guard_ttv_with, pre_tensor_ttv. cbn [sel_modes pre_sel]. rewrite dimscheck_some_cases by auto.
+    destruct (modes_ok (ndim s) d) eqn:Hm; cbn [andb]; [|reflexivity].
+    destruct (pre_count (ndim s) (zlen vlens) (zlen d)) eqn:Hc; cbn [andb]; [|reflexivity].
+    destruct (vidx_of_some (ndim s) (zlen vlens) d) as [vidx Hv]. rewrite Hv.
+    rewrite tail_ok by (now rewrite modes_ok_sort). apply decide_by. okb. cbn [is_ok]. rewrite andb_true_r.
+    unfold guard_ttv_sizes. okb.
+    pose proof (modes_ok_length _ _ HN Hm) as HP. apply modes_ok_spec in Hm as [Hr Hn].
+    unfold pre_count in Hc. apply orb_true_iff in Hc. rewrite !Z.eqb_eq in Hc.
+    rewrite <- (mults_align s (ndim s) (zlen vlens) d
+      (fun v m => is_ok (chk (np_idx_ok (zlen vlens) v) ;; chk (np_idx_ok (ndim s) m) ;;
+                         chk (znth (-1) vlens (np_norm (zlen vlens) v) =? szw s m)))
+      (fun v m => znth (-1) vlens v =? sz s m) vidx); auto.
+    intros v m Hv' Hm'. okb. rewrite !np_idx_ok_nonneg, np_norm_nonneg, szw_nonneg by lia.
+    unfold in_range. destruct (Z.leb_spec 0 v), (Z.ltb_spec v (zlen vlens)), (Z.leb_spec 0 m), (Z.ltb_spec m (ndim s)); cbn; try reflexivity; lia.
+  Qed.
+
+  Theorem ttv_with_decides vlens dims excl :
+    guard_ttv_with tail s vlens dims excl = decide (pre_tensor_ttv s vlens dims excl).
+  Proof.
+    destruct dims as [d|], excl as [e|].
+    - unfold guard_ttv_with. now rewrite dimscheck_rejects_both.
+    - apply ttv_with_some_decides.
+    - pose proof (ttv_with_some_decides vlens (complement (ndim s) e)) as H.
+      unfold guard_ttv_with, pre_tensor_ttv in *. cbn [sel_modes pre_sel] in *.
+      rewrite dimscheck_exclude_as_dims. unfold others. fold (complement (ndim s) e).
+      rewrite modes_ok_complement in H. cbn [andb] in H.
+      destruct (forallb (in_range (ndim s)) e); cbn [andb]; [exact H|reflexivity].
+    - pose proof (ttv_with_some_decides vlens (np_arange 0 (ndim s))) as H.
+      unfold guard_ttv_with, pre_tensor_ttv in *. cbn [sel_modes pre_sel] in *.
+      rewrite dimscheck_default_as_dims. rewrite modes_ok_arange in H. exact H.
+  Qed.
+End TtvWith.
+
+Lemma tensor_tail_ok s sd : modes_ok (ndim s) sd = true ->
+  (if 1 <? ndim s then chk (np_transpose_ok (ndim s) (np_setdiff (ndim s) sd ++ sd))
+   else chk ((zlen sd <=? 1) || (sz s 0 =? 1))) = Ok tt.
 Proof.
-  pose proof (ndim_nonneg s) as HN.
-  unfold guard_tensor_ttv, pre_tensor_ttv. cbn [sel_modes pre_sel]. rewrite dimscheck_some_cases by auto.
-  destruct (modes_ok (ndim s) d) eqn:Hm; cbn [andb]; [|reflexivity].
-  destruct (pre_count (ndim s) (zlen vlens) (zlen d)) eqn:Hc; cbn [andb]; [|reflexivity].
-  destruct (vidx_of_some (ndim s) (zlen vlens) d) as [vidx Hv]. rewrite Hv.
-  rewrite ttv_tail_ok by auto. apply decide_by. okb. cbn [is_ok]. rewrite andb_true_r.
-  unfold guard_ttv_sizes. okb.
-  pose proof (modes_ok_length _ _ HN Hm) as HP. apply modes_ok_spec in Hm as [Hr Hn].
-  unfold pre_count in Hc. apply orb_true_iff in Hc. rewrite !Z.eqb_eq in Hc.
-  rewrite <- (mults_align s (ndim s) (zlen vlens) d
-    (fun v m => is_ok (chk (np_idx_ok (zlen vlens) v) ;; chk (np_idx_ok (ndim s) m) ;;
-                       chk (znth (-1) vlens (np_norm (zlen vlens) v) =? szw s m)))
-    (fun v m => znth (-1) vlens v =? sz s m) vidx); auto.
-  intros v m Hv' Hm'. okb. rewrite !np_idx_ok_nonneg, np_norm_nonneg, szw_nonneg by lia.
-  unfold in_range. destruct (Z.leb_spec 0 v), (Z.ltb_spec v (zlen vlens)), (Z.leb_spec 0 m), (Z.ltb_spec m (ndim s)); cbn; try reflexivity; lia.
+  intros Hs. pose proof (ndim_nonneg s) as HN.
+  destruct (Z.ltb_spec 1 (ndim s)).
+  - unfold np_setdiff. rewrite setdiff_arange. fold (complement (ndim s) sd).
+    rewrite np_transpose_ok_nonneg.
+    + now rewrite is_permb_complement.
+    + intros x Hx. apply in_app_or in Hx as [Hx|Hx]; [eapply complement_nonneg; eauto|].
+      apply modes_ok_spec in Hs as [Hr _]. specialize (Hr x Hx). lia.
+  - pose proof (modes_ok_length _ _ HN Hs). destruct (Z.leb_spec (zlen sd) 1); [reflexivity|lia].
 Qed.
 
 Theorem tensor_ttv_decides s vlens dims excl :
   guard_tensor_ttv s vlens dims excl = decide (pre_tensor_ttv s vlens dims excl).
 Proof.
+  change (guard_tensor_ttv s vlens dims excl) with
+    (guard_ttv_with (fun sd => if 1 <? ndim s then chk (np_transpose_ok (ndim s) (np_setdiff (ndim s) sd ++ sd))
+                               else chk ((zlen sd <=? 1) || (sz s 0 =? 1))) s vlens dims excl).
+  apply ttv_with_decides. intros sd. apply tensor_tail_ok.
+Qed.
+
+(* sptensor.ttv / ktensor.ttv / ttensor.ttv / sumtensor.ttv *)
+Theorem ttv_checks_decides s vlens dims excl :
+  guard_ttv_checks s vlens dims excl = decide (pre_ttv s vlens dims excl).
+Proof. unfold guard_ttv_checks, pre_ttv. apply ttv_with_decides. reflexivity. Qed.
+
+(* ---------------------------------------------------------------------------------------- *)
+(* tensor.ttm                                                                                 *)
+(* ---------------------------------------------------------------------------------------- *)
+Lemma length_upd {A} (l : list A) n x : length (upd l n x) = length l.
+Proof. revert n. induction l as [|a l IH]; intros [|n]; cbn; auto. Qed.
+
+Lemma nth_upd_other {A} (l : list A) n k x d : k <> n -> nth k (upd l n x) d = nth k l d.
+Proof.
+  revert n k. induction l as [|a l IH]; intros [|n] [|k] H; cbn; auto; try congruence.
+Qed.
+
+Lemma ndim_upd s n x : ndim (upd s n x) = ndim s.
+Proof. unfold ndim, zlen. now rewrite length_upd. Qed.
+
+Lemma sz_upd_other s n x m : 0 <= m -> 0 <= n -> m <> n -> sz (upd s (Z.to_nat n) x) m = sz s m.
+Proof.
+  intros Hm Hn Hne. unfold sz, znth. destruct (Z.ltb_spec m 0); [lia|].
+  destruct (Z.ltb_spec m 0); [lia|]. apply nth_upd_other. lia.
+Qed.
+
+Lemma ttm_chain_decides ms tr steps : forall s,
+  NoDup (map snd steps) -> (forall p, In p steps -> 0 <= snd p) ->
+  ttm_chain s ms tr steps =
+  decide (forallb (fun vd => np_idx_ok (zlen ms) (fst vd) &&
+                             ((snd vd <? ndim s) && (mat_in tr (shp2_d ms (np_norm (zlen ms) (fst vd))) =? sz s (snd vd)))) steps).
+Proof.
+  induction steps as [|[v d] r IH]; intros s Hn Hp; [reflexivity|].
+  cbn [ttm_chain forallb fst snd]. cbn [map snd] in Hn. inversion Hn as [|? ? Hnotin Hn']; subst.
+  destruct (np_idx_ok (zlen ms) v); cbn [negb andb]; [|reflexivity].
+  unfold ttm1. destruct (d <? ndim s); cbn [negb andb]; [|reflexivity].
+  destruct (mat_in tr (shp2_d ms (np_norm (zlen ms) v)) =? sz s d); cbn [negb andb]; [|reflexivity].
+  rewrite IH; auto.
+  - f_equal. apply forallb_ext_in. intros [v' d'] Hin. cbn [fst snd]. rewrite ndim_upd.
+    rewrite sz_upd_other; auto.
+    + apply (Hp (v', d')). now right.
+    + apply (Hp (v, d)). now left.
+    + intros ->. apply Hnotin. apply in_map_iff. exists (v', d). auto.
+  - intros p Hin. apply Hp. now right.
+Qed.
+
+Lemma vidx_length N M d v : vidx_of N (Some M) d = Some v -> length v = length (np_sort d).
+Proof.
+  unfold vidx_of. assert (L : length (np_sort d) = length d) by (apply Permutation_length, np_sort_perm).
+  destruct (zlen d =? M); intros H; inversion H; subst; auto. now rewrite np_argsort_length.
+Qed.
+
+Lemma ttm_some_decides s ms d tr :
+  guard_tensor_ttm s ms (Some d) None tr = decide (pre_tensor_ttm s ms (Some d) None tr).
+Proof.
+  pose proof (ndim_nonneg s) as HN.
+  unfold guard_tensor_ttm, pre_tensor_ttm. cbn [sel_modes pre_sel]. rewrite dimscheck_some_cases by auto.
+  destruct (modes_ok (ndim s) d) eqn:Hm; cbn [andb]; [|reflexivity].
+  destruct (pre_count (ndim s) (zlen ms) (zlen d)) eqn:Hc; cbn [andb]; [|reflexivity].
+  destruct (vidx_of_some (ndim s) (zlen ms) d) as [vidx Hv]. rewrite Hv.
+  assert (Ls : zlen (np_sort d) = zlen d) by (unfold zlen; f_equal; apply Permutation_length, np_sort_perm).
+  rewrite Ls. destruct (0 <? zlen d); cbn [chk andthen andb]; [|reflexivity].
+  pose proof (modes_ok_length _ _ HN Hm) as HP. apply modes_ok_spec in Hm as [Hr Hn].
+  unfold pre_count in Hc. apply orb_true_iff in Hc. rewrite !Z.eqb_eq in Hc.
+  assert (Hs : forall x, In x (np_sort d) -> 0 <= x < ndim s).
+  { intros x Hx. apply Hr. eapply Permutation_in; [apply np_sort_perm|]; auto. }
+  rewrite ttm_chain_decides.
+  - f_equal.
+    rewrite <- (mults_align s (ndim s) (zlen ms) d
+      (fun v m => np_idx_ok (zlen ms) v && ((m <? ndim s) && (mat_in tr (shp2_d ms (np_norm (zlen ms) v)) =? sz s m)))
+      (fun v m => mat_in tr (shp2_d ms v) =? sz s m) vidx); auto.
+    intros v m Hv' Hm'. rewrite np_idx_ok_nonneg, np_norm_nonneg by lia.
+    unfold in_range. destruct (Z.leb_spec 0 v), (Z.ltb_spec v (zlen ms)), (Z.ltb_spec m (ndim s)); cbn; try reflexivity; lia.
+  - rewrite map_snd_combine by (eapply vidx_length; eauto).
+    eapply Permutation_NoDup; [apply Permutation_sym, np_sort_perm|]; auto.
+  - intros [v m] Hin. cbn [snd]. apply in_combine_r in Hin. specialize (Hs m Hin). lia.
+Qed.
+
+Theorem tensor_ttm_decides s ms dims excl tr :
+  guard_tensor_ttm s ms dims excl tr = decide (pre_tensor_ttm s ms dims excl tr).
+Proof.
   destruct dims as [d|], excl as [e|].
-  - unfold guard_tensor_ttv. now rewrite dimscheck_rejects_both.
-  - apply ttv_some_decides.
-  - pose proof (ttv_some_decides s vlens (complement (ndim s) e)) as H.
-    unfold guard_tensor_ttv, pre_tensor_ttv in *. cbn [sel_modes pre_sel] in *.
+  - unfold guard_tensor_ttm. now rewrite dimscheck_rejects_both.
+  - apply ttm_some_decides.
+  - pose proof (ttm_some_decides s ms (complement (ndim s) e) tr) as H.
+    unfold guard_tensor_ttm, pre_tensor_ttm in *. cbn [sel_modes pre_sel] in *.
     rewrite dimscheck_exclude_as_dims. unfold others. fold (complement (ndim s) e).
     rewrite modes_ok_complement in H. cbn [andb] in H.
     destruct (forallb (in_range (ndim s)) e); cbn [andb]; [exact H|reflexivity].
-  - pose proof (ttv_some_decides s vlens (np_arange 0 (ndim s))) as H.
-    unfold guard_tensor_ttv, pre_tensor_ttv in *. cbn [sel_modes pre_sel] in *.
+  - pose proof (ttm_some_decides s ms (np_arange 0 (ndim s)) tr) as H.
+    unfold guard_tensor_ttm, pre_tensor_ttm in *. cbn [sel_modes pre_sel] in *.
     rewrite dimscheck_default_as_dims. rewrite modes_ok_arange in H. exact H.
+Qed.
+
+(* ---------------------------------------------------------------------------------------- *)
+(* tensor.contract (C19-N03 repaired): the modes are range-checked before anything else       *)
+(* ---------------------------------------------------------------------------------------- *)
+Lemma permute_accepts_perm s order : is_permb (ndim s) order = true -> guard_tensor_permute s order = Ok tt.
+Proof.
+  intros H. unfold guard_tensor_permute.
+  assert (Hl : (ndim s =? zlen order) = true).
+  { unfold is_permb in H. apply andb_true_iff in H as [H _]. now rewrite Z.eqb_sym. }
+  rewrite Hl. cbn [chk andthen]. destruct (zlen order =? 0); [reflexivity|].
+  destruct (forallb (fun x => x =? 1) order); [reflexivity|].
+  rewrite np_transpose_ok_nonneg; [now rewrite H|].
+  intros x Hx. unfold is_permb in H. apply andb_true_iff in H as [_ H]. apply modes_ok_spec in H as [Hr _].
+  specialize (Hr x Hx). lia.
+Qed.
+
+Theorem tensor_contract_decides s i1 i2 : guard_tensor_contract s i1 i2 = decide (pre_tensor_contract s i1 i2).
+Proof.
+  unfold guard_tensor_contract, pre_tensor_contract.
+  destruct (in_range (ndim s) i1 && in_range (ndim s) i2) eqn:Hr; cbn [chk andthen andb]; [|reflexivity].
+  destruct (sz s i1 =? sz s i2); cbn [chk andthen andb negb]; [|now rewrite andb_false_r].
+  destruct (Z.eqb_spec i1 i2) as [E|E]; cbn [chk andthen andb negb]; [reflexivity|].
+  destruct (ndim s =? 2); [reflexivity|].
+  unfold np_setdiff. rewrite setdiff_arange. fold (complement (ndim s) [i1; i2]).
+  apply permute_accepts_perm, is_permb_complement; [apply ndim_nonneg|].
+  apply andb_true_iff in Hr as [H1 H2]. unfold modes_ok. cbn [forallb nodupb zmem existsb]. rewrite H1, H2.
+  destruct (Z.eqb_spec i1 i2); [contradiction|reflexivity].
 Qed.
